@@ -33,11 +33,15 @@ let res_string = function
 
 let () =
   let s = ref (init { full = false; fixed = false; quorum = nat_of_int 3 }) in
-  let do_op ?(refused = false) o hist =
+  let do_op ?(refused = false) ?(once = false) o hist =
     let (s', r) = if refused
       then (match o with
             | ODecided (h, m, v, l) -> xstep !s (XDecidedRefused (h, m, v, l))
             | _ -> failwith "refused")
+      else if once
+      then (match o with
+            | ODecided (h, m, v, l) -> xstep !s (XDecidedRefusedOnce (h, m, v, l))
+            | _ -> failwith "once")
       else step !s o in
     s := s';
     let c = s'.ct in
@@ -60,6 +64,14 @@ let () =
              do_op (ODecided (n_of_string h, { c_round = n_of_string r; c_signers = ids },
                               bool_of_string v, bool_of_string l)) (Some (n_of_string h))
          | _ -> failwith "decided")
+    | "DECIDEDW1" :: h :: r :: _ :: rest ->
+        (* the same message while the database refuses only the first storage call that writes *)
+        let (ids, rest) = parse_ids rest in
+        (match rest with
+         | [ v; l ] ->
+             do_op ~once:true (ODecided (n_of_string h, { c_round = n_of_string r; c_signers = ids },
+                              bool_of_string v, bool_of_string l)) (Some (n_of_string h))
+         | _ -> failwith "decidedw1")
     | "DECIDEDWF" :: h :: r :: _ :: rest ->
         (* the same message while the database refuses every write *)
         let (ids, rest) = parse_ids rest in
